@@ -42,6 +42,7 @@ BAD_IDS = lambda t: [t + '--{311b2d2d-f010-4473-83ec-1edf84858f4c}', t + '--urn:
                      t + '-311b2d2d-f010-4473-83ec-1edf84858f4c', t + '--311b2d2d-f010-4473-83ec-1edf84858f4', t + '--３11b2d2d-f010-4473-83ec-1edf84858f4c']
 BAD_TS = ['2020-01-01', '2020-13-01T00:00:00Z', 'x', '2020-01-01T00:00:00', '2020-01-01T00:00:00Z\n', '2020-01-01 00:00:00Z', '20200101T000000Z', '2020-01-01T24:00:00Z', '']
 REF_TYPES = ['identity', 'indicator', 'file', 'relationship', 'marking-definition', 'bundle', 'sighting', 'location', 'ipv4-addr']
+NON_OBJECT_NAMES = ['socket-ext', 'ntfs-ext', 'archive-ext', 'tlp', 'statement']      # registered names that are not object types (extensions, marking payloads)
 
 
 def corruptions(d, ver, cat, tables):
@@ -66,12 +67,12 @@ def corruptions(d, ver, cat, tables):
             for b in BAD_IDS(d['type']) + ([d['type'] + '--11111111-1111-1111-8111-111111111111'] if ver == '2.0' else []):
                 c = copy.deepcopy(d); c[pn] = b; yield (f'{pn}: malformed identifier {b!r}', c)
         if k == 'ReferenceProperty':
-            for t in REF_TYPES + ['x-custom-type']:
+            for t in REF_TYPES + ['x-custom-type'] + NON_OBJECT_NAMES:
                 c = copy.deepcopy(d); c[pn] = t + '--' + G.UUID2; yield (f'{pn}: reference to {t}', c)
             for b in BAD_IDS('identity')[:5]:
                 c = copy.deepcopy(d); c[pn] = b; yield (f'{pn}: malformed reference {b!r}', c)
         if k == 'ListProperty' and pv['list_of'].get('kind') == 'ReferenceProperty' and isinstance(d[pn], list):
-            for t in REF_TYPES + ['x-custom-type']:
+            for t in REF_TYPES + ['x-custom-type'] + NON_OBJECT_NAMES:
                 c = copy.deepcopy(d); c[pn] = list(d[pn]) + [t + '--' + G.UUID2]; yield (f'{pn}: list reference to {t}', c)
         if k == 'TimestampProperty':
             for b in BAD_TS:
